@@ -261,7 +261,11 @@ func runC01(c *Ctx) {
 				c.Bad("O1.3", fk(nx)+":ok-result-constant-per-branch", r.Pos(), "ok result must be a constant per branch")
 				continue
 			}
-			cl, _ := CallOfValue(r.Results[0])
+			// start.Add(...) here, or in a helper of the type that computes the time (operationTime(i), finishTime())
+			var cl *ssa.Call
+			if ts := ThroughReturns(r.Results[0]); len(ts) == 1 {
+				cl, _ = CallOfValue(ts[0])
+			}
 			if cl == nil || !MatchCC(&cl.Call, Spec{"time", "Time", "Add"}) || !DerivesOnly(cl.Call.Args[0], false, IsFieldLoadPred("doAtSchedule", "start")) {
 				c.Bad("O1.3", fk(nx)+":time-is-start-plus-offset", r.Pos(), "returned time must be start.Add(...)")
 				continue
